@@ -139,7 +139,7 @@ func (it *Interp) fieldValue(pf *PField, fd FieldDef, data []byte, arch byte) (V
 		}
 		if it.HasRef && it.Ref >= 0x10000000 {
 			v := TimeVal(it.Ref)
-			v.Off = int32(int64(sec) - int64(it.Ref))
+			v.Off = int64(sec) - int64(it.Ref)
 			v.S = "FITLOCAL"
 			return v, true
 		}
